@@ -198,6 +198,8 @@ def gen_lines(r, ctx, secrets, o, n, eol_variety=True):
             ln = G.lit_line(r.choice(G.BENIGN))
         if eol_variety and r.random() < 0.05:
             ln["eol"] = "\r\n"
+        elif eol_variety and r.random() < 0.04:
+            ln["eol"] = "\r"          # classic Mac line ending: a line boundary for a text-mode reader
         lines.append(ln)
     if lines and eol_variety and r.random() < 0.2:
         lines[-1]["eol"] = ""
